@@ -1147,15 +1147,15 @@ class Engine:
             pc = b_or(*[p.cond() for p in panics])
             k = self.decide([pc, b_not(pc)])
             if k == 0:
-                # pick the first feasible one for the message
+                if len(panics) == 1:
+                    raise PanicEx(panics[0].panic.site, panics[0].panic.msg)
+                # one path per panicking path of the callee (exclusive by construction, exhaustive under `pc`)
+                conds, seen_ = [], False
                 for p in panics:
-                    if len(panics) == 1 or self.feasible(p.cond()):
-                        self.run.pc.append(z3bool(p.cond()))
-                        self.solver.add(z3bool(p.cond()))
-                        raise PanicEx(p.panic.site, p.panic.msg)
-                if self.run.assumed or self.any_assumed or self.pc_unsat():
-                    raise InfeasiblePath()
-                raise Inconclusive('panic summary inconsistent')
+                    conds.append(b_and(p.cond(), b_not(seen_)))
+                    seen_ = b_or(seen_, p.cond())
+                j = self.decide(conds)
+                raise PanicEx(panics[j].panic.site, panics[j].panic.msg)
         if not rets:
             raise Inconclusive('summarised callee %s never returns' % fn.name)
         return merge_values([(r.cond(), r.value) for r in rets])
